@@ -256,6 +256,36 @@ theorem merge_exclusive_sublist_right (a b : List α) :
     (b.filter (fun x => !a.contains x)).Sublist (mergeListsWOrdering a b) := by
   rw [← merge_order_right]; exact List.filter_sublist
 
+/-- the loop on two copies of one duplicate-free list whose members are exactly the overlap set -/
+theorem go_self : ∀ (r ov res : List α), r.Nodup → (∀ x, x ∈ ov ↔ x ∈ r) →
+    go r r ov res = res ++ r := by
+  intro r
+  induction r with
+  | nil => intro ov res _ _; rw [go]
+  | cons e t ih =>
+    intro ov res hnd hov
+    have hcn := List.nodup_cons.mp hnd
+    have he : ov.contains e = true := by simp [hov]
+    rw [go]; simp only [he, if_true]
+    have hne : (ov.filter (fun x => x != e)).contains e = false := by simp
+    rw [go]; simp only [hne, Bool.false_eq_true, if_false]
+    rw [ih (ov.filter (fun x => x != e)) (res ++ [e]) hcn.2 ?_]
+    · simp
+    · intro x
+      simp only [List.mem_filter, hov, List.mem_cons, bne_iff_ne, ne_eq]
+      constructor
+      · rintro ⟨h1 | h1, h2⟩
+        · exact absurd h1 h2
+        · exact h1
+      · intro h1
+        exact ⟨Or.inr h1, fun hh => hcn.1 (hh ▸ h1)⟩
+
+/-- **merge_self**: merging a duplicate-free list with itself gives it back (declarative: a class
+whose `vars()` and `__annotations__` list the same names in the same order keeps that order) -/
+theorem merge_self (a : List α) (ha : a.Nodup) : mergeListsWOrdering a a = a := by
+  have := go_self a (overlap a a) [] ha (by intro x; simp [overlap])
+  simpa [mergeListsWOrdering] using this
+
 /-- without the duplicate-free hypothesis an element can be emitted more often than it occurs in
 either list's de-duplicated union (the real function does the same) -/
 theorem merge_dup_counterexample :
